@@ -56,10 +56,10 @@ Print Assumptions C07_civil_epoch_roundtrip.
 Theorem C07_mlsx_roundtrip : forall st kind name,
   name_ok name ->
   parse_mlsx_line (build_mlsx_string (Some st) kind name)
-  = (name, [ (l_size, str_of_Z (st_size st));
-             (l_create, format_mlsx_time (st_ctime st));
-             (l_modify, format_mlsx_time (st_mtime st));
-             (l_type, kind_text kind) ]).
+  = Ok (name, [ (l_size, str_of_Z (st_size st));
+                (l_create, format_mlsx_time (st_ctime st));
+                (l_modify, format_mlsx_time (st_mtime st));
+                (l_type, kind_text kind) ]).
 Proof. exact mlsx_roundtrip. Qed.
 Print Assumptions C07_mlsx_roundtrip.
 
@@ -77,15 +77,25 @@ Theorem C07_mlsx_time_exact : forall e,
 Proof. intros e H. split; [reflexivity|exact (mlsx_time_exact e H)]. Qed.
 Print Assumptions C07_mlsx_time_exact.
 
-(* the MLSD worker loop + the client's lister: each directory entry exactly once, in order, none
-   invented, each with its own facts (entries are an arbitrary list; names are single components
-   other than "." and "..") *)
+(* the MLSD worker loop, its lines parsed one by one: each directory entry exactly once, in order,
+   none invented, each with its own facts (entries are an arbitrary list; names are single
+   components other than "." and "..").  The client's lister loop over them is
+   C07_client_mlsd_exact below. *)
 Theorem C07_mlsd_entries_exact : forall dir,
   Forall (fun e => entry_name_ok (de_name e)) dir ->
-  client_mlsd (mlsd_lines dir)
-  = map (fun e => (de_name e, entry_of (mlsx_facts (de_stat e) (de_kind e)))) dir.
+  map parse_mlsx_line (mlsd_lines dir)
+  = map (fun e => Ok (de_name e, entry_of (mlsx_facts (de_stat e) (de_kind e)))) dir.
 Proof. exact mlsd_entries_exact. Qed.
 Print Assumptions C07_mlsd_entries_exact.
+
+(* nothing is invented from a line without a pathname: no SP, or nothing after it, is a ValueError
+   (before the fix such a line parsed to the name '.' and was silently skipped) *)
+Theorem C07_mlsx_no_name_rejected : forall s,
+  (forallb (fun x => negb (x =? 32)) (rstrip s) = true \/
+   exists f, rstrip s = f ++ [32] /\ forallb (fun x => negb (x =? 32)) f = true) ->
+  parse_mlsx_line s = Err E_VALUE.
+Proof. exact mlsx_no_name_rejected. Qed.
+Print Assumptions C07_mlsx_no_name_rejected.
 
 (* ---------------- LIST fallback: the date column ---------------- *)
 (* within the last half year, except the one-day window, and with the client's clock between the
@@ -139,13 +149,12 @@ Qed.
 Print Assumptions C07_ls_date_window_witness.
 
 (* ---------------- LIST fallback: the whole line ---------------- *)
-(* FULL STATEMENT (refuted below): for every entry the LIST line parses back to the same name,
-   type and size.  PROVED: for regular files and directories whose nine mode letters contain
-   neither 'S' nor 'T' and whose name has no leading/trailing whitespace — name, type, size, link
-   count exact, date as above. *)
+(* FULL STATEMENT (refuted below by F13a only): for every entry the LIST line parses back to the
+   same name, type and size.  PROVED: for regular files and directories with ANY mode (all 12
+   permission bits, the S/T letters included since the F13b fix) whose name has no
+   leading/trailing whitespace — name, type, size, link count, permission bits, date as above. *)
 Theorem C07_list_roundtrip_partial : forall now st ds name modify,
   (filetype_char (st_mode st) = 45 \/ filetype_char (st_mode st) = 100) ->
-  no_ST (st_mode st) = true ->
   0 <= st_nlink st -> 0 <= st_size st ->
   length ds = 12%nat -> strip_fixed ds -> strip_fixed name ->
   parse_ls_date HALF TWO ds now = Some modify ->
@@ -189,13 +198,24 @@ Theorem C07_list_entries_exact_partial : forall off now now' dir,
 Proof. exact (fun off now now' dir => list_entries_exact HALF TWO off now now' dir consts_proof). Qed.
 Print Assumptions C07_list_entries_exact_partial.
 
-(* F13b: every mode with set-uid/set-gid/sticky and without the matching execute bit makes the
-   client's parser reject the server's own line (ValueError) *)
-Theorem C07_list_mode_ST_refuted : forall nowdt st ds name,
-  no_ST (st_mode st) = false -> name <> [] -> rstrip name = name ->
-  parse_list_line_unix HALF TWO nowdt (build_list_string_with st ds name) = Err E_VALUE.
-Proof. exact (list_line_ST_rejected HALF TWO). Qed.
-Print Assumptions C07_list_mode_ST_refuted.
+(* F13b repaired — the mode column for ALL modes: the nine letters stat.filemode prints for any
+   st_mode are read back by parse_unix_mode as the 12 permission bits (S/T included), exactly,
+   except that 't' (sticky AND others-execute) is read without the others-execute bit *)
+Theorem C07_list_mode_roundtrip : forall mode,
+  parse_unix_mode (perm_chars mode) = Ok (mode_view mode) /\
+  ((bit mode 9 && bit mode 0) = false -> mode_view mode = mode mod 4096).
+Proof. exact (fun mode => conj (parse_perm_chars mode) (mode_view_exact mode)). Qed.
+Print Assumptions C07_list_mode_roundtrip.
+
+(* the former F13b witness (0o104644, '-rwSr--r--') is an ordinary instance now *)
+Theorem C07_list_setuid_witness :
+  let st := mkstats 5 0 1717243100 1 35236 in
+  parse_list_line_unix half_year_spec 63115200 (civil_of_epoch 1717243200)
+    (build_list_string half_year_spec 0 1717243200 st [102])
+  = Ok ([102], list_info st [50; 48; 50; 52; 48; 54; 48; 49; 49; 49; 53; 56; 48; 48])
+  /\ li_mode (list_info st []) = 2468 /\ no_ST (st_mode st) = false.
+Proof. exact list_line_setuid_witness. Qed.
+Print Assumptions C07_list_setuid_witness.
 
 (* F13a: a name with leading whitespace comes back without it *)
 Theorem C07_list_leading_space_refuted :
@@ -220,7 +240,8 @@ Proof. vm_compute. repeat split; congruence. Qed.
 
 Example C07_plain_entry_satisfiable :
   plain_entry (mkstats 1099511627776 0 1709251230 1 33188) [97; 32; 98] /\
-  plain_entry (mkstats 0 0 951782400 2 16877) [100].
+  plain_entry (mkstats 0 0 951782400 2 16877) [100] /\
+  plain_entry (mkstats 5 0 1717243100 1 35236) [102].     (* 0o104644: set-uid without x *)
 Proof.
   unfold plain_entry, strip_fixed. cbn [st_mode st_nlink st_size].
   repeat split; try (vm_compute; congruence); try discriminate; try (left; vm_compute; reflexivity);
@@ -232,9 +253,9 @@ Qed.
    server's LIST worker writes for an arbitrary directory: every entry that exists exactly once, in
    order, none invented, with name, type, permission bits, link count, size and the date to the
    format's precision — whatever the Windows / custom parsers later in the chain would do.
-   FULL STATEMENT (all entries) is refuted by C07_list_mode_ST_refuted / C07_client_list_ST_refuted
-   and C07_list_leading_space_refuted; PROVED for plain entries (regular files and directories
-   without S/T letters, names without leading/trailing whitespace) outside the one-day window. *)
+   FULL STATEMENT (all entries) is refuted by C07_list_leading_space_refuted (F13a) only; PROVED
+   for plain entries (regular files and directories of ANY mode, names without leading/trailing
+   whitespace) outside the one-day window. *)
 Theorem C07_client_list_exact_partial : forall off now now' others dir,
   now <= now' <= now + HOUR -> yr (client_now off now') <= 9999 ->
   Forall (list_item_ok off now) (present dir) ->
@@ -244,24 +265,21 @@ Theorem C07_client_list_exact_partial : forall off now now' others dir,
 Proof. exact (fun off now now' others dir => client_list_exact HALF TWO off now now' others dir consts_proof). Qed.
 Print Assumptions C07_client_list_exact_partial.
 
-(* F13b seen from Client.list(): one S/T entry anywhere in the directory makes the whole LIST
-   listing raise (when the other parsers of the chain reject that line as well) *)
-Theorem C07_client_list_ST_refuted : forall nowdt others pre post st ds name,
-  Forall (fun x => exists r, parse_list_line (parse_list_line_unix HALF TWO nowdt) others x = Ok r /\ true = true) pre ->
-  no_ST (st_mode st) = false -> name <> [] -> rstrip name = name ->
-  Forall (fun p => exists t, p (build_list_string_with st ds name) = Err t) others ->
-  client_collect (parse_list_line (parse_list_line_unix HALF TWO nowdt) others) (fun _ => true)
-                 (pre ++ build_list_string_with st ds name :: post) = Err E_VALUE.
-Proof. exact (client_list_ST_fails HALF TWO). Qed.
-Print Assumptions C07_client_list_ST_refuted.
-
 (* the default path: Client.list() over MLSD through the same loop *)
 Theorem C07_client_mlsd_exact : forall dir,
   Forall (fun e => entry_name_ok (de_name e)) dir ->
-  client_collect (fun l => Ok (parse_mlsx_line l)) entry_has_type (mlsd_lines dir)
+  client_collect parse_mlsx_line entry_has_type (mlsd_lines dir)
   = Ok (map (fun e => (de_name e, entry_of (mlsx_facts (de_stat e) (de_kind e)))) dir).
 Proof. exact client_mlsd_collect. Qed.
 Print Assumptions C07_client_mlsd_exact.
+
+(* a parsed line without a type fact makes the listing a ValueError — also when it is a "." line *)
+Theorem C07_client_list_typeless_rejected : forall pre l post r,
+  Forall (fun x => exists r, parse_mlsx_line x = Ok r /\ entry_has_type (snd r) = true) pre ->
+  parse_mlsx_line l = Ok r -> entry_has_type (snd r) = false ->
+  client_collect parse_mlsx_line entry_has_type (pre ++ l :: post) = Err E_VALUE.
+Proof. exact (client_collect_typeless parse_mlsx_line entry_has_type). Qed.
+Print Assumptions C07_client_list_typeless_rejected.
 
 (* which command reads the listing: MLSD unless it is answered 50x (then LIST, only when the caller
    did not force MLSD), LIST when forced *)
@@ -342,7 +360,7 @@ Proof.
     + split; discriminate.
     + vm_compute. split; congruence.
     + left. vm_compute. split; [reflexivity|congruence].
-    + exact (proj2 C07_plain_entry_satisfiable).
+    + exact (proj1 (proj2 C07_plain_entry_satisfiable)).
     + split; discriminate.
     + vm_compute. split; congruence.
     + right. left. vm_compute. congruence.
@@ -350,3 +368,11 @@ Proof.
     apply NoDup_cons; [cbn [In]; intros [H|[]]; discriminate|]. apply NoDup_cons; [intros []|apply NoDup_nil].
   - right. split; reflexivity.
 Qed.
+
+(* non-vacuity of C07_client_list_typeless_rejected / C07_mlsx_no_name_rejected:
+   "x=1; ." parses to the name "." with no type fact; "Type=file;" has no pathname *)
+Example C07_typeless_line_exists :
+  parse_mlsx_line [120; 61; 49; 59; 32; 46] = Ok ([46], [([120], [49])]) /\
+  entry_has_type [([120], [49])] = false /\
+  parse_mlsx_line [84; 121; 112; 101; 61; 102; 105; 108; 101; 59] = Err E_VALUE.
+Proof. vm_compute. repeat split; reflexivity. Qed.
